@@ -71,6 +71,9 @@ func runTransfer(t *testing.T, sc Scenario, sum *summary, tf *vh.TraceFile) {
 		rng := rand.New(rand.NewSource(sc.Seed))
 		w := NewWorld(e)
 		kcp.VerifPoolSanitize(vh.EnvInt("SESS_NOSAN", 0) == 0, 64, false)
+		if sc.Seed%3 == 0 {
+			kcp.VerifEntropyNearReseed(uint64(10 + rng.Intn(400))) // the nonce source reseeds itself in mid-transfer (C09 freshness, C14)
+		}
 		defer kcp.VerifPoolSanitize(false, 0, false)
 		w.Mon.KeepRaw = sc.Corrupt > 0 || sc.Garbage > 0
 		var pausedOnce, outageOnce atomic.Bool
@@ -109,7 +112,10 @@ func runTransfer(t *testing.T, sc Scenario, sum *summary, tf *vh.TraceFile) {
 			scfg.D, scfg.P = sc.PeerFEC[0], sc.PeerFEC[1]
 		}
 		l, lconn := w.Listen(srvAddr, scfg)
-		w.Mon.Register(srvAddr, cliAddr, 77, scfg, 0) // the accepted session answers before Accept returns
+		// the accepted session answers before Accept returns, with the default MTU until the acceptor has applied the configuration
+		rcfg := scfg
+		rcfg.Mtu = 0
+		w.Mon.Register(srvAddr, cliAddr, 77, rcfg, 0)
 		cli, cconn := w.Dial(cliAddr, srvAddr, 77, sc.Cfg)
 		w.Ev(map[string]any{"ev": "open", "conn": "cli", "stream": sc.Cfg.Stream})
 		var oobMu sync.Mutex
@@ -139,7 +145,13 @@ func runTransfer(t *testing.T, sc Scenario, sum *summary, tf *vh.TraceFile) {
 				close(accepted)
 				return
 			}
+			if scfg.Mtu > 0 {
+				w.Mon.BeginSetMtu(srvAddr, cliAddr, scfg.Mtu)
+			}
 			scfg.Apply(s)
+			if scfg.Mtu > 0 {
+				w.Mon.SetMtu(srvAddr, cliAddr, scfg.Mtu)
+			}
 			if scfg.D > 0 && sc.OOB > 0 {
 				s.SetOOBHandler(handler("srv", "cli"))
 			}
@@ -238,9 +250,12 @@ func runTransfer(t *testing.T, sc Scenario, sum *summary, tf *vh.TraceFile) {
 					mtuLeft--
 					hs := s.VerifHeaderSize()
 					m := []int{hs + 24, hs + 25, hs + 50, 300, 576, 1000, 1400, 1500, 1600, 100000, -5, 0}[rng.Intn(12)]
+					w.Mon.BeginSetMtu(myAddr, peerAddr, m)
 					ok := s.SetMtu(m)
 					if ok {
 						w.Mon.SetMtu(myAddr, peerAddr, m)
+					} else {
+						w.Mon.EndSetMtu(myAddr, peerAddr)
 					}
 					w.Ev(map[string]any{"ev": "setmtu", "conn": name, "mtu": m, "ok": ok})
 				}
@@ -361,7 +376,8 @@ func runTransfer(t *testing.T, sc Scenario, sum *summary, tf *vh.TraceFile) {
 		}
 		// sessions still sitting in the accept backlog (never handed out) are collected so that the bubble can end
 		unclaimed := 0
-		for i := 0; i < 200 && l.VerifAcceptLen() > 0; i++ {
+		l.SetReadDeadline(time.Time{}) // an expired deadline would only add a third ready case to Accept's select
+		for i := 0; i < 100000 && l.VerifAcceptLen() > 0; i++ { // the closed listener's Accept picks die or the backlog at random
 			if s, err := l.AcceptKCP(); err == nil && s != nil {
 				s.Close()
 				unclaimed++
